@@ -69,6 +69,12 @@ def run(ctx):
     r2.check(writers == [PAUSE, RESUME], "flag-writers", "`paused` is written only by pause() and resume()", "`paused` writers: %s" % writers)
     notifiers = sorted({c.body.name for c in F.all_calls("re:^tokio::sync::notify::Notify::(notify_waiters|notify_one|notify_last)$") if "paused_waiter" in fields_of(c.body, c.args[0])})
     r2.check(notifiers == [RESUME], "notifiers", "only resume() notifies paused_waiter", "paused_waiter notifiers: %s" % notifiers)
+    # Notify::notify_one()/notify_last() with nobody waiting stores a permit: the next notified().await - i.e. the first client arriving in a
+    # *later* pause window - completes at once and goes through the gate of a paused pool. Only notify_waiters() (no stored permit) may be used.
+    permits = [c for c in F.all_calls("re:^tokio::sync::notify::Notify::(notify_one|notify_last)$") if "paused_waiter" in fields_of(c.body, c.args[0])]
+    r2.check(not permits, "no-stored-permit", "paused_waiter is only ever woken with notify_waiters() (no permit is stored for a later pause)",
+             "paused_waiter.%s() stores a permit when nobody is waiting: after a RESUME over an idle pool the first client of the next PAUSE passes the gate and runs on the paused pool" % (permits[0].name.split("::")[-1] if permits else ""),
+             permits[0].where() if permits else "")
     # each pool gets its own flag and Notify
     fresh = 0
     for b_, blk, st in F.aggregates("pgcat::pool::ConnectionPool"):
